@@ -24,6 +24,7 @@ func c20Append() []explore.Event {
 		ev("append", 0, "INBOX", "m1"),
 		ev("append", 0, "INBOX", "m2"),
 		ev("append", 0, "INBOX", "u1"),
+		ev("append", 0, "INBOX", "v1"),
 		ev("append", 0, "other", "m1"),
 		ev("append", 0, "Recovered Messages", "m3"),
 		ev("append", 0, "recovered messages", "m3"),
